@@ -3,9 +3,9 @@ import Ebv.Model.Float64
 /-! # `GenFixed` — the fixed-point layer of the ebpfcat expression generator (ebpfcat/ebpf.py)
 
 A surface program with `fixed` typing (`harness/vh/dsl_fixed.py`) is walked like the harness walks it with the real
-classes.  Every Python-level value is an `int`, a `float` written as a decimal literal `n / 10^5`, an `Expression`
-object (a `Gen.Expr` tree plus its `fixed` attribute — the attribute is only ever read at the root of an operand), or
-`None`.  The operator overloads insert the `FIXED_BASE` factors (`fSum`, `fMul`, `fTruediv`, `fFloordiv`,
+classes.  Every Python-level value is an `int`, a `float` written as a decimal literal `n / 10^5`, or an `Expression`
+object (a `Gen.Expr` tree plus its `fixed` attribute — the attribute is only ever read at the root of an operand).
+The operator overloads insert the `FIXED_BASE` factors (`fSum`, `fMul`, `fTruediv`, `fFloordiv`,
 `rFloordiv`, `cmpScale`), fold them into `Constant` objects (`Constant.__imul__`, `imul`), stores scale in
 `RegisterArray.__setitem__` / `Memory._set` (`storeVal`).  The result is a plain `Gen.Expr`; emission is `Gen`'s.
 An `x` variable is a 64-bit signed memory operand (`Gen.Fmt.q`: same load, store, width and sign flags) that is
@@ -26,7 +26,6 @@ inductive FVal where
   | int (v : Int)
   | dec (n : Int)                      -- the Python float written as the decimal literal n / 10^5
   | ex (e : Expr) (fixed : Bool)
-  | none
 deriving Repr, Inhabited
 
 /-- an `Expression` object: tree and `fixed` attribute -/
@@ -40,7 +39,6 @@ def ensureF : FVal → Except AsmError FE
   | .int v => .ok ⟨.const v, false⟩
   | .dec n => .ok ⟨.const (F64.decConst n), true⟩
   | .ex e f => .ok ⟨e, f⟩
-  | .none => typeError
 
 def asConst : Expr → Option Int
   | .const v => some v
@@ -99,7 +97,7 @@ def fDirect (op : FOp) (self : FE) (value : FVal) : Except AsmError FE := do
   let v ← ensureF value
   match op with
   | .add => pure (fSum .add self v)
-  | .sub => pure (if isSumObj self.e then fSum .add self v else fSum .sub self v)   -- Sum.__sub__ falls back to __add__
+  | .sub => pure (fSum .sub self v)               -- also for a `Sum`: `Sum.__sub__` → `super().__sub__` for a non-`int`
   | .mul => pure (fMul self v)
   | .truediv => pure (fTruediv self v)
   | .floordiv => pure (fFloordiv self v)
@@ -123,13 +121,11 @@ def FOp.toS : FOp → Option SOp
 def toPy : FVal → Option PyVal
   | .int v => some (.int v)
   | .ex e false => some (.ex e)
-  | .none => some .none
   | _ => Option.none
 
 def ofPy : PyVal → FVal
   | .int v => .int v
   | .ex e => .ex e false
-  | .none => .none
 
 def unmodelled {α} : Except AsmError α := .error (.other "unmodelled")
 
@@ -138,8 +134,6 @@ def wrapFE (x : Except AsmError FE) : Except AsmError FVal := do let r ← x; pu
 /-- a node that involves fixed point or `/`: operands are not both plain Python numbers -/
 def fNode (op : FOp) (a b : FVal) : Except AsmError FVal :=
   match a, b with
-  | .none, _ => typeError
-  | _, .none => typeError
   | .ex l fl, .ex r fr =>
     -- `Binary + Sum` calls `Sum.__radd__` first (subclass with its own reflected method)
     if op == .add && isPlainBinary l && isSumObj r then wrapFE (fDirect .add ⟨r, fr⟩ a)
@@ -268,16 +262,6 @@ def emitFProg (p : FProg) : Except AsmError (List Insn) :=
   | .error e => .error e
 
 /-! ## classes -/
-
-/-- *sum-minus* at the surface: `Sum - (expression or float)` falls back to `__add__` -/
-def fSumMinus (env : FEnv) : FExpr → Bool
-  | .bin op a b =>
-    fSumMinus env a || fSumMinus env b ||
-      (op == .sub && (match elabF env a, elabF env b with
-        | .ok (.ex x _), .ok (.ex _ _) => isSumObj x
-        | .ok (.ex x _), .ok (.dec _) => isSumObj x
-        | _, _ => false))
-  | _ => false
 
 /-- the program-level classes of `Gen` (C01) a compiled statement is in -/
 def CSt.classes : CSt → List String
